@@ -17,12 +17,64 @@ mod threads;
 mod tok;
 mod wire;
 
-use gen::{gen_dict, gen_perm, gen_sentence, GenCfg};
+use gen::{gen_dict, gen_perm, gen_sentence, DictSrc, GenCfg};
 use rng::Rng;
 use std::io::Write;
 use tok::{DOp, WOp};
 
+/// Profile `u16` of the stream `tok`: boundaries holding about 65536 nodes (`Node.min_idx` is a `u16`).
+/// A lexicon with `rows` homographs of `a` (all cost 100 except the one at `cheap`, cost 1), a word `b`;
+/// sentence `ab`.  Up to 65536 nodes the stored back pointer is exact; from 65537 on it wraps (known
+/// finding F15).  The case with exactly 65536 rows keeps the cheapest row away from index 65535, which a
+/// debug build rejects with `debug_assert_ne!(min_idx, INVALID_IDX)` although release builds are right.
+/// The dictionary is not sent (2.4 MB per case, and the CSV model is quadratic): the Lean driver rebuilds
+/// the lattice environment from (rows, cheap), see Driver/Tok16.lean.
+pub fn tok16_obs(rows: usize, cheap: usize) -> String {
+    let mut lex = String::new();
+    for i in 0..rows {
+        lex.push_str(&format!("a,0,0,{},r{i}\n", if i == cheap { 1 } else { 100 }));
+    }
+    lex.push_str("b,0,0,5,B\n");
+    let d = DictSrc {
+        kind: 0,
+        lex: lex.into_bytes(),
+        matrix: b"1 1\n0 0 0\n".to_vec(),
+        right: vec![],
+        left: vec![],
+        cost: vec![],
+        chardef: b"DEFAULT 0 1 0\n".to_vec(),
+        unk: b"DEFAULT,0,0,1000,unk\n".to_vec(),
+        num_right: 1,
+        num_left: 1,
+        cates: vec![],
+        surfaces: vec!["a".into(), "b".into()],
+        has_space: false,
+    };
+    match tok::build_dict(&d) {
+        Some(Ok(dict)) => {
+            let wops = vec![WOp::Reset("ab".into()), WOp::Tokenize, WOp::QueryTokens];
+            let obs = tok::run_case(dict, &[], false, 0, &wops);
+            if obs.is_empty() { "-".to_string() } else { obs.join(" ; ") }
+        }
+        Some(Err(())) => "builderr".to_string(),
+        None => "buildpanic".to_string(),
+    }
+}
+
+fn tok_u16(seed: u64, n: usize, out: &mut dyn Write) {
+    let fam: [(usize, usize); 5] = [(65536, 7), (65537, 65536), (65535, 65534), (65541, 65539), (65537, 3)];
+    for (k, (rows, cheap)) in fam.iter().enumerate() {
+        if k >= n {
+            break;
+        }
+        writeln!(out, "tok16 {seed}.u{k} {rows} {cheap} IMPL {} ## ROWS={rows} CHEAP={cheap}", tok16_obs(*rows, *cheap)).unwrap();
+    }
+}
+
 fn tok_profile(profile: &str, seed: u64, n: usize, out: &mut dyn Write) {
+    if profile == "u16" {
+        return tok_u16(seed, n, out);
+    }
     let mut rng = Rng::new(seed ^ 0x746f6b);
     let mut made = 0usize;
     let mut dict_no = 0usize;
@@ -34,7 +86,14 @@ fn tok_profile(profile: &str, seed: u64, n: usize, out: &mut dyn Write) {
             "nul" => cfg.nul_in_sentence = true,
             "c11" => cfg.big_homographs = true,
             "c07tok" => cfg.kind = Some(1 + rng.below(2) as u8),
-            "c01" => cfg.kind = if rng.chance(1, 3) { None } else { Some(0) },
+            "c01" => {
+                cfg.kind = if rng.chance(1, 3) { None } else { Some(0) };
+                // costs near the limits of their types: word and matrix costs around +-30000 (i16), raw bigram entries around
+                // +-60000 (i32), so that prefix costs at one boundary differ by more than 2^15 and connection costs leave i16
+                if rng.chance(1, 5) {
+                    cfg.cost_mag = 30000;
+                }
+            }
             "c06" | "c08" => {
                 cfg.kind = if rng.chance(1, 2) { None } else { Some(0) };
                 cfg.max_ids = 6;
